@@ -49,17 +49,18 @@ def generate(rng, tier, index):
     triples = gen.gen_graph(rng, n_nodes=n_nodes, n_classes=rng.randint(1, 3), n_props=rng.randint(2, 6),
                             bnodes=rng.random() < 0.25, prop_namespaces=tuple(rng.sample(NS_POOL, rng.randint(1, 4))),
                             density=rng.choice([0.5, 0.8]))
-    classes = gen.classes_of(triples)
-    if not classes:
-        triples = sorted(set(triples) | {(gen.iri(gen.EX + "n0"), gen.iri(gen.RDF_TYPE), gen.iri(gen.EX + "C0"))}, key=repr)
-        classes = gen.classes_of(triples)
+    tp = gen.CUSTOM_TYPE if rng.random() < 0.12 else gen.RDF_TYPE
+    triples = gen.retype(gen.ensure_class(triples), tp)
+    classes = gen.classes_of(triples, tp)
     options = gen.gen_options(rng, allow_inverse=True)
+    if tp != gen.RDF_TYPE:
+        options["instantiation_property"] = tp
     n = len(triples)
     p1 = list(range(n))
     rng.shuffle(p1)
     scen = {"half": half, "graph": gen.L(triples), "options": options, "ns": gen.gen_namespaces(rng)}
     if half == "cap":
-        sizes = [len(gen.instances_of(triples, c)) for c in classes]
+        sizes = [len(gen.instances_of(triples, c, tp)) for c in classes]
         scen["cap"] = rng.randint(1, max(sizes) + 1)
         if rng.random() < 0.55:
             scen["target"] = {"target_classes": rng.sample(classes, rng.randint(1, len(classes)))}
@@ -74,7 +75,7 @@ def generate(rng, tier, index):
     else:
         pool = NS_POOL + [gen.RDF_NS]
         scen["ignore"] = rng.sample(pool, rng.randint(1, 3))
-        scen["target"] = gen.gen_target(rng, triples, allow_shape_map=False)
+        scen["target"] = gen.gen_target(rng, triples, allow_shape_map=False, type_prop=tp)
         scen["channel"] = rng.choice(["file", "raw"])
         scen["orders"] = [p1, list(p1)]
     return scen
@@ -125,6 +126,7 @@ def execute(scen, scratch):
     texts = []
     runs = 0
     triples = [gen.T(t) for t in scen["graph"]]
+    tp = scen["options"].get("instantiation_property", gen.RDF_TYPE)
     p1, p2 = scen["orders"]
     s1 = [triples[i] for i in p1]
     s2 = [triples[i] for i in p2]
@@ -155,7 +157,7 @@ def execute(scen, scratch):
             cnt = {}
             keep = []
             for t in s1:
-                if t[1][1] == gen.RDF_TYPE and t[2][0] == "i":
+                if t[1][1] == tp and t[2][0] == "i":
                     c = t[2][1]
                     if relevant is not None and c not in relevant:
                         continue
@@ -168,7 +170,7 @@ def execute(scen, scratch):
             runs += 1
             verdicts += [("cap", out.brief(), ref.brief())]
             violations += _diff(scen, ref, out, "cap_equals_restricted_input", relax=(ch in ("store", "tsv_file")))
-            sizes = {c: len(gen.instances_of(triples, c)) for c in gen.classes_of(triples)}
+            sizes = {c: len(gen.instances_of(triples, c, tp)) for c in gen.classes_of(triples, tp)}
             if any(v > k for c, v in sizes.items() if relevant is None or c in relevant):
                 nontrivial_dim = True
                 sim.probes["some_class_larger_than_cap"] += 1
